@@ -747,8 +747,13 @@ class Frame(object):
         if bounding_f_range is None:
             bounding_min, bounding_max = 0, self.fchans
         else:
-            bounding_min = max(self.get_index(bounding_f_range[0]), 0)
-            bounding_max = min(self.get_index(bounding_f_range[1]), self.fchans)
+            # Clip both ends to the band: a negative stop index would otherwise
+            # wrap around and select channels outside of the requested range
+            bounding_min = min(max(self.get_index(bounding_f_range[0]), 0), self.fchans)
+            bounding_max = max(min(self.get_index(bounding_f_range[1]), self.fchans), 0)
+        if bounding_max <= bounding_min:
+            # Requested range doesn't overlap the frame
+            return np.zeros(self.shape)
             
         restricted_fs = self.fs[bounding_min:bounding_max]
         if integrate_f_profile:
